@@ -33,6 +33,9 @@ type C04Env struct {
 	Upper     func(string) string
 	PanicCE   func(int) int
 	NilErrFn  func() (int, error)
+	EqAny     func(a, b interface{}) bool
+	AddAny    func(a, b interface{}) interface{}
+	LessStr   func(a fmt.Stringer, b interface{}) bool
 }
 
 func (C04Env) PanicM(x int) int { panic(fmt.Sprintf("method boom %d", x)) }
@@ -51,6 +54,9 @@ func c04NewEnv() *C04Env {
 		Add:   func(a, b int) int { return a + b },
 		Upper: strings.ToUpper, PanicCE: func(x int) int { var m map[string]int; m["x"] = x; return x },
 		NilErrFn: func() (int, error) { return 0, nil },
+		EqAny:    func(a, b interface{}) bool { return a == nil && b == nil },
+		AddAny:   func(a, b interface{}) interface{} { return []interface{}{a, b} },
+		LessStr:  func(a fmt.Stringer, b interface{}) bool { return a == nil },
 	}
 }
 
@@ -59,7 +65,7 @@ func c04MapEnv() map[string]interface{} {
 	return map[string]interface{}{"I": e.I, "J": e.J, "S": e.S, "B": e.B, "F": e.F, "Ints": e.Ints, "M": e.M, "Obj": e.Obj,
 		"NilPtr": e.NilPtr, "NilMap": e.NilMap, "NilSlice": e.NilSlice, "NilIface": nil, "NilFn": e.NilFn,
 		"PanicFn": e.PanicFn, "PanicFast": e.PanicFast, "BadOp": e.BadOp, "NotFn": e.NotFn, "Add": e.Add, "Upper": e.Upper,
-		"PanicCE": e.PanicCE, "PanicM": e.PanicM, "OkM": e.OkM}
+		"PanicCE": e.PanicCE, "PanicM": e.PanicM, "OkM": e.OkM, "EqAny": e.EqAny, "AddAny": e.AddAny, "LessStr": e.LessStr}
 }
 
 // run-time environments for a program compiled against C04Env / its map form: the sample itself, members
@@ -95,6 +101,7 @@ var c04Sources = []string{
 	`#`, `.x`, `{#}`, `all(Ints, #)`, `all(Ints, {#.x})`, `map(Ints, {#?.x})`, `map(Ints, {NilPtr?.N})`, `map(Ints, {nil})`, `filter(Ints, {nil})`, `one(Ints, {1})`,
 	`!B ?: B`, `-I ?: 1`, `(I + 1) ?: 2`, `I ? 1 : 2`, `B ? I : S`, `B ? nil : nil`, `B ?: I`, `(B ? NilPtr : Obj).N`, `(B ? nil : Obj)?.N`,
 	`I == S`, `I < S`, `S + I`, `B + B`, `I and B`, `I in I`, `S in S`, `S contains I`, `I startsWith S`, `I matches I`, `[1] + [2]`, `{a: 1} == {a: 1}`, `M == M`, `Ints == Ints`, `Add == Add`, `PanicFn == nil`,
+	`nil == I`, `I == nil`, `nil == nil`, `nil + I`, `I + nil`, `nil < I`, `NilIface?.x == I`, `NilPtr?.N + 1`, `NilPtr?.N < 1`, `Missing?.x == I`, `[nil == S]`, `{a: nil + 1}`, `map(Ints, {nil == #})`,
 	`PanicCE(1)`, `PanicCE(I)`, `Upper("a" + "b")`, `Upper(S)`, `I + 1 + 2`, `I - J`, `I * BadOp(2)`,
 	``, ` `, `(`, `)`, `()`, `[`, `{`, `{a}`, `{a:}`, `{:1}`, `{1 2}`, `[1 2]`, `1 2`, `a b`, `a.`, `a?.`, `a..b..c`, `1...2`, `a ? b`, `a ? : c`, `a ? b : `, `f(`, `f(,)`, `f(1,)`, `len()`, `len(1, 2)`, `all(Ints)`, `all(Ints, 1)`, `not`, `not in`, `1 not in`, `1 in`, `in 1`, `**`, `1 ** `, `- - - 1`, `!!!B`, `a[`, `a[:`, `a[:]`, `a[1:2:3]`, `a.1`, `a."b"`, `a.not`, `a.in.b`, `$`, `_`, `@`, "a\x00b", "\xff\xfe", "é + ü", "a\nb", "a /* c */ b", "a // b",
 }
@@ -106,7 +113,7 @@ type c04Opts struct {
 	Undef bool
 	NoOpt bool
 	As    int // 0 none, 1 bool, 2 int64, 3 float64
-	Op    int // 0 none, 1 valid, 2 missing function, 3 ill-shaped function, 4 not a function
+	Op    int // 0 none, 1 valid, 2 missing function, 3 ill-shaped function, 4 not a function, 5 functions with interface-typed parameters (nil-typed operands)
 	CE    int // 0 none, 1 valid, 2 missing name, 3 non-function member, 4 panicking function
 	Patch int // 0 none, 1 int->ConstantNode, 2 string->IdentifierNode, 3 wrap, 4 delete children (nil), 5 replace by nil, 6 drop builtin/call arguments, 7 all->ConstantNode(nil value)
 }
@@ -114,7 +121,7 @@ type c04Opts struct {
 func (o c04Opts) String() string {
 	return fmt.Sprintf("Env=%s Undef=%v Optimize=%v As=%s Operator=%s ConstExpr=%s Patch=%s",
 		[...]string{"none", "struct", "map", "nil"}[o.Env], o.Undef, !o.NoOpt, [...]string{"none", "bool", "int64", "float64"}[o.As],
-		[...]string{"none", "valid", "missing-fn", "ill-shaped-fn", "not-a-fn"}[o.Op], [...]string{"none", "valid", "missing-name", "non-function", "panicking-fn"}[o.CE],
+		[...]string{"none", "valid", "missing-fn", "ill-shaped-fn", "not-a-fn", "iface-params"}[o.Op], [...]string{"none", "valid", "missing-name", "non-function", "panicking-fn"}[o.CE],
 		[...]string{"none", "int->ConstantNode", "string->IdentifierNode", "wrap-in-unary", "nil-children", "replace-by-nil", "drop-arguments", "any->ConstantNode(nil)"}[o.Patch])
 }
 
@@ -210,6 +217,8 @@ func (o c04Opts) Build() (opts []expr.Option) {
 		opts = append(opts, expr.Operator("*", "BadOp"))
 	case 4:
 		opts = append(opts, expr.Operator("-", "NotFn"))
+	case 5:
+		opts = append(opts, expr.Operator("==", "EqAny"), expr.Operator("+", "AddAny"), expr.Operator("<", "LessStr"))
 	}
 	switch o.CE {
 	case 1:
@@ -233,7 +242,7 @@ func c04AllOpts() []c04Opts {
 		for u := 0; u < 2; u++ {
 			for no := 0; no < 2; no++ {
 				for as := 0; as < 4; as++ {
-					for op := 0; op < 5; op++ {
+					for op := 0; op < 6; op++ {
 						for ce := 0; ce < 5; ce++ {
 							for p := 0; p < 8; p++ {
 								out = append(out, c04Opts{env, u == 1, no == 1, as, op, ce, p})
@@ -253,7 +262,7 @@ func c04RandOpts(r *rand.Rand) c04Opts {
 		o.As = r.Intn(4)
 	}
 	if r.Intn(4) == 0 {
-		o.Op = r.Intn(5)
+		o.Op = r.Intn(6)
 	}
 	if r.Intn(4) == 0 {
 		o.CE = r.Intn(5)
